@@ -52,6 +52,7 @@ int __real_pthread_cond_wait(pthread_cond_t *, pthread_mutex_t *);
 int __real_pthread_cond_signal(pthread_cond_t *);
 int __real_pthread_create(pthread_t *, const pthread_attr_t *, void *(*)(void *), void *);
 int __real_pthread_join(pthread_t, void **);
+int __real_pthread_detach(pthread_t);
 int __real_pthread_mutex_init(pthread_mutex_t *, const pthread_mutexattr_t *);
 int __real_pthread_mutex_destroy(pthread_mutex_t *);
 int __real_select(int, fd_set *, fd_set *, fd_set *, struct timeval *);
@@ -61,7 +62,7 @@ ssize_t __real_write(int, const void *, size_t);
 static rfbScreenInfoPtr S;
 static unsigned g_seed;
 static int g_yield_pct;
-static volatile int g_new, g_gone, g_created, g_joined, g_dupgone;
+static volatile int g_new, g_gone, g_created, g_joined, g_dupgone, g_detached;
 static const char *volatile g_phase = "init";
 static __thread int t_lib;            /* this thread is a library thread or inside a library call */
 static __thread unsigned t_rng;
@@ -254,9 +255,17 @@ int __wrap_pthread_create(pthread_t *th, const pthread_attr_t *a, void *(*fn)(vo
   }
   return __real_pthread_create(th, a, fn, arg);
 }
+int __wrap_pthread_detach(pthread_t th) {
+  int r = __real_pthread_detach(th);
+  if (t_lib && r == 0) __sync_fetch_and_add(&g_detached, 1);
+  return r;
+}
 int __wrap_pthread_join(pthread_t th, void **ret) {
   int r = __real_pthread_join(th, ret);
   if (t_lib && r == 0) __sync_fetch_and_add(&g_joined, 1);
+  if (t_lib && r != 0) {                      /* a join the library asked for and did not get: detached / never started / already joined thread */
+    __real_pthread_mutex_lock(&reg_mx); g_bad_unlock++; misuse_note("join-failed", 'T', r); __real_pthread_mutex_unlock(&reg_mx);
+  }
   return r;
 }
 
@@ -491,8 +500,8 @@ static int run_stress(unsigned seed, int ypct, int nstay, int nabrupt, int nslow
   /* listener still runs; no client is connected now.  A client whose teardown did not complete within
      the wait (its input thread blocked in THREAD_JOIN) still has its two threads alive. */
   stuck = g_new - g_gone; cycles_done = g_gone;
-  zombies = g_created - 1 - g_joined - 2 * stuck;
-  printf("#cycles n=%d new=%d gone=%d created=%d joined=%d\n", ncycles, g_new, g_gone, g_created, g_joined);
+  zombies = g_created - 1 - g_joined - g_detached - 2 * stuck;   /* ended, neither joined nor detached */
+  printf("#cycles n=%d new=%d gone=%d created=%d joined=%d detached=%d\n", ncycles, g_new, g_gone, g_created, g_joined, g_detached);
 
   /* phase 2: concurrent clients + application activity */
   phase("stress", 90);
